@@ -15,6 +15,7 @@ CONFIGS = [(0, "selector optimize=True", lambda: ExactAlgorithm(optimize=True), 
 
 
 class Exact(Suite):
+    escalate_cap = 120
     names_rate, past_rate = 0.06, 0.06     # hostile element names / datasets with a past (gen.decorate_cases)
     name = "exact"
     imports = ["Scheme", "Rank", "Partition", "Judge.JOpt"]
@@ -79,6 +80,7 @@ def var_term(name):
 
 
 class Ilp(Suite):
+    escalate_cap = 80
     """the integer program that ExactAlgorithmPulp hands to the solver, captured at the call of LpProblem.solve,
     and the solver's answer: compared row for row with the model's program (ILP.v), the answer checked feasible for
     the MODEL's rows and decoded by the model's decoder"""
@@ -171,6 +173,7 @@ STANDIN = os.path.join(os.path.dirname(os.path.abspath(__file__)), "standin")
 
 
 class Cplex(Suite):
+    escalate_cap = 60
     """The CPLEX models (ExactAlgorithmCplex optimize on / off, one / all optimal consensuses, the "optim1" variant)
     and the CPLEX branch of the selector, run on a stand-in for the CPLEX Python API (harness/standin/cplex: same
     calls, CBC underneath - CPLEX itself is not installed). For the configurations that solve one program over the
@@ -283,6 +286,7 @@ class Cplex(Suite):
 
 
 class Reuse(Suite):
+    escalate_cap = 20
     """ONE algorithm object answers a sequence of calls (the way a benchmark loop uses the library): the same dataset under
     schemes that agree on their first three penalties (unifying / induced / pseudo-distance with the same p, multiples), an
     equal dataset built anew, another dataset - each answer must be a global optimum for ITS dataset and scheme"""
